@@ -173,8 +173,10 @@ def run_concrete(case) -> list[tuple[str, str]]:
                             ("rdflib", "bytesio"), ("rdflib", "raw"),
                             ("generic", "preamble14"), ("generic", "preamble15"),
                             ("generic", "tinybuf"), ("generic", "raw1"), ("generic", "raw2"),
-                            ("generic", "seekraw"), ("rdflib", "seekraw")):
-            if source == "raw1" and len(data) > 100_000:
+                            ("generic", "seekraw"), ("rdflib", "seekraw"),
+                            ("generic", "shortbuf1"), ("generic", "shortbuf2"),
+                            ("rdflib", "shortbuf1"), ("generic", "shortbuf5")):
+            if source in ("raw1", "shortbuf1", "shortbuf2", "shortbuf5") and len(data) > 100_000:
                 continue  # (one byte at a time through megabytes adds nothing but time)
             src = {"bytesio": lambda: io.BytesIO(data),
                    "raw": lambda: faultio.ScheduleRaw(data),
@@ -183,6 +185,10 @@ def run_concrete(case) -> list[tuple[str, str]]:
                    # a seekable raw source (io.FileIO / open(..., buffering=0))
                    "seekraw": lambda: faultio.ScheduleRaw(data, seekable=True),
                    "raw2": lambda: faultio.ScheduleRaw(data, (2,)),
+                   # a buffered (not raw) non-seekable input that answers with short reads
+                   "shortbuf1": lambda: faultio.ShortBuffered(data, 1),
+                   "shortbuf2": lambda: faultio.ShortBuffered(data, 2),
+                   "shortbuf5": lambda: faultio.ShortBuffered(data, 5),
                    "bytesio-after-zeros": lambda: positioned(b"\x00\x00\x00\x00\x07"),
                    "bytesio-after-0a": lambda: positioned(b"\x0a\x03\x0a\x01\x00"),
                    "preamble14": lambda: after_preamble(14),
